@@ -54,6 +54,8 @@ class Gen:
             return ['List', ['Fn', r.choice([['id'], ['id'], ['inc'], ['dbl'], ['skip_if_odd']])]]
         if c < 0.5:
             return ['Fn', r.choice([['id'], ['inc'], ['skip_if_odd']])]
+        if c < 0.6:
+            return ['Agg', 'SumFrom', r.choice([10, 3, -2, 1])]        # Sum(init=lambda: z): a start that is not the neutral element
         return ['Agg', r.choice(['First', 'Max', 'Min', 'Sum', 'Count', 'Avg', 'Max', 'Sum'])]
 
     def spec(self, levels):
@@ -121,6 +123,9 @@ def build(s):
     a = s[1]
     if a in ('First', 'Max', 'Min', 'Avg'):
         return getattr(grouping, a)()
+    if a == 'SumFrom':
+        z = s[2]
+        return glom.Sum(init=lambda: z)
     if a == 'Sum':
         return glom.Sum()
     if a == 'Count':
@@ -235,6 +240,8 @@ def spec_coq(s):
         return '(GFn %s)' % fn_coq(s[1])
     if k == 'Limit':
         return '(GLimit %s %s)' % (cnat(s[1]), spec_coq(s[2]))
+    if s[1] == 'SumFrom':
+        return '(GAgg (ASumFrom %s))' % cz(s[2])
     return '(GAgg %s)' % AGGS[s[1]]
 
 
